@@ -43,6 +43,11 @@ def arrayproxy_fields(proxy: ArrayProxy) -> Optional[set[str | int]]:
             return set.intersection(*cast(list[set[str | int]], fields))
 
 
+def const_item_shape(const: data.Const, name: str | int):
+    layout = const.shape()
+    return layout.elem_shape if isinstance(layout, data.ArrayLayout) else layout.members[name]  # type: ignore
+
+
 def assign_arg_fields(val: AssignArg) -> Optional[set[str | int]]:
     if isinstance(val, ArrayProxy):
         return arrayproxy_fields(val)
@@ -128,12 +133,17 @@ def assign(
         elif isinstance(fields, Iterable):
             subfields = AssignType.ALL
 
+        rhs_item = rhs[name]  # type: ignore
+        if isinstance(rhs, data.Const) and isinstance(rhs_item, int):
+            # an item of a constant of a layout has the shape the layout declares
+            rhs_item = Const(rhs_item, const_item_shape(rhs, name))
+
         return assign(
             lhs[name],  # type: ignore
-            rhs[name],  # type: ignore
+            rhs_item,  # type: ignore
             fields=subfields,
             lhs_strict=isinstance(lhs, ValueLike) and not isinstance(lhs[name], int),  # type: ignore
-            rhs_strict=isinstance(rhs, ValueLike) and not isinstance(rhs[name], int),  # type: ignore
+            rhs_strict=isinstance(rhs, ValueLike) and not isinstance(rhs_item, int),  # type: ignore
         )
 
     if lhs_fields is not None and rhs_fields is not None:
@@ -200,7 +210,12 @@ def assign(
             lhs = lhs[next(iter(lhs_fields))]  # type: ignore
             lhs_fields = assign_arg_fields(lhs)
         while rhs_fields is not None and len(rhs_fields) == 1:
-            rhs = rhs[next(iter(rhs_fields))]  # type: ignore
+            name = next(iter(rhs_fields))
+            item = rhs[name]  # type: ignore
+            if isinstance(rhs, data.Const) and isinstance(item, int):
+                item = Const(item, const_item_shape(rhs, name))
+                rhs_strict = True
+            rhs = item
             rhs_fields = assign_arg_fields(rhs)
 
         def has_explicit_shape(val: ValueLike):
